@@ -174,8 +174,10 @@ ASSUMPTIONS = [
     "client a context, so the wrapper removes that context itself",
     "rotating contexts: DSP0200 makes the EnumerationContext an opaque "
     "value that the client must take from the previous response of the "
-    "session ('the enumeration context value may change with every "
-    "response'); the wrapper around conn._imethodcall replaces the value "
+    "session, so a server may change the value with every response "
+    "(Pull... docstrings: the context 'must have been returned by the "
+    "previous open or pull operation for this enumeration session'); the "
+    "wrapper around conn._imethodcall replaces the value "
     "in every Open/Pull response of the mock by a new one, maps it back "
     "on the next Pull/CloseEnumeration request and answers a request with "
     "any other value with CIM_ERR_INVALID_ENUMERATION_CONTEXT (the session "
